@@ -32,7 +32,8 @@ CFG = dict(
          "failure), usually closed by an undisturbed head; every event line is executed on the real client and on the model and the FilterLogs "
          "call list / re-subscribe count / give-up flag per event and the full delivered sequence (block, log ids) per case are compared; a case "
          "class is distinct per (event kind, outcome, #batches, armed/after-fault flags, re-subscribe count, markers/removed/aborted/historical flags)",
-    trusted_base=["go-ethereum ethclient/rpc client and server (real code, exercised over a real websocket; not modelled)",
+    trusted_base=["the hand-over between historical and ongoing sync is executed by the harness' own transcription of cli/operator setupEventHandling (SyncHistory, ErrNothingToSync case, SyncOngoing from last+1), not by that function: a change inside setupEventHandling is not seen (campaign V, V-m10: missed)",
+                  "go-ethereum ethclient/rpc client and server (real code, exercised over a real websocket; not modelled)",
                   "fake execution node: scripted immutable chain below head - followDistance, eth_getLogs answers in block order",
                   "harness mirrors cli/operator/node.go's hand-over `SyncOngoing(lastProcessedBlock + 1)` (pinned by a statement-occurrence fact on setupEventHandling) "
                   "and mocks eth/eventhandler by its block-number monotonicity check",
